@@ -140,7 +140,7 @@ def parse_template(text):
     return out
 
 
-STRIP_ATTR = re.compile(r"#\s*\[\s*(inline|cold|must_use|allow|track_caller|doc|derive|cfg_attr|expect|deny|warn|automatically_derived|repr|error|non_exhaustive|from|source)\b")
+STRIP_ATTR = re.compile(r"#\s*\[\s*(inline|cold|must_use|allow|track_caller|doc|derive|cfg_attr|expect|deny|warn|automatically_derived|repr|error|non_exhaustive|from|source|default)\b")
 KEEP_DERIVES = {"Clone", "Copy", "Default", "PartialEq", "Eq"}
 
 
